@@ -192,4 +192,30 @@ def runtimeReadChar (st : TermState) (evs : List Event) : Read Char :=
 upper-case characters by `char_code_to_event`; `Key::try_from` treats both alike). -/
 def typed (c : Char) : Event := .key Mods.NONE (.char c) .press
 
+/-! ### What the events amount to for a reading program
+(vocabulary of the statements in `Lace/Props/C03Term.lean`; `pipeBytes` is also the input of the
+driver's specification line for terminal runs) -/
+
+/-- The character an event delivers to `term::read_char`, if any. -/
+def delivers (e : Event) : Option Char :=
+  match keyOfEvent e with
+  | .ok (.char ch) => some ch
+  | .ok .enter => some '\n'
+  | _ => none
+
+/-- `Ctrl+C`: the one event on which `Key::try_from` does not return. -/
+def isCtrlC (e : Event) : Prop := keyOfEvent e = .ctrlC
+
+instance : DecidablePred isCtrlC := fun e => inferInstanceAs (Decidable (keyOfEvent e = .ctrlC))
+
+def NoCtrlC (evs : List Event) : Prop := ∀ e ∈ evs, ¬ isCtrlC e
+
+instance (evs : List Event) : Decidable (NoCtrlC evs) := by unfold NoCtrlC; infer_instance
+
+/-- The bytes a pipe has to carry for a program to read what these events make it read. -/
+def pipeBytes (evs : List Event) : List Nat :=
+  evs.flatMap (fun e => match delivers e with
+    | some ch => utf8Bytes ch
+    | none => [])
+
 end Lace.Term
